@@ -250,6 +250,11 @@ var verifSharedOpts = []Option{Entrypoint(""), Recover(true), AllowInvalidUTF8(f
 // verifTable: a program's table of options from which calls take prefixes (table[:k]...).
 var verifTable = []Option{Entrypoint(""), Recover(true), AllowInvalidUTF8(false), MaxExpressions(0), GlobalStore("t", 1), Recover(true), AllowInvalidUTF8(false), MaxExpressions(0)}
 
+{{if .HasState}}
+// verifStX: a helper of the user's package, kept outside the grammar file, through which code blocks
+// of some grammars reach the state store.
+func verifStX(x *current) map[string]any { return x.state }
+{{end}}
 // verifInitRes: a Parse call made while the package's variables are initialised, the way a program
 // does that keeps a parsed default in a package-level variable (var defaults = mustParse("...")).
 // The generated parser must be usable there: whatever it needs is initialised first by Go's
